@@ -531,6 +531,9 @@ def run(ctx, env):
     # R6.7 no other history-dependent state
     extra = extra_state_writes(prog, parse_bodies)
     for (adt, fld), info in sorted(extra.items()):
+        if info.get("sink"):
+            ctx.ob("R6.7", adt, "extra-state:%s" % fld, True, "parser field %s.%s : %s is a write-only diagnostics sink on the parse path: only ever lent as `&mut` receiver to crate functions returning `()` with no other `&mut` parameter, never read (%d site(s))" % (adt.rsplit("::", 1)[-1], fld, info["ty"][:60], len(info["writes"])))
+            continue
         ctx.ob("R6.7", adt, "extra-state:%s" % fld, not info["writes"],
                ("parser field %s.%s : %s is written on the parse path at %s — decoding may now depend on history outside the template maps (memo / counter / last-used cache), which no rule here tracks"
                 % (adt.rsplit("::", 1)[-1], fld, info["ty"][:80], info["writes"][:3])) if info["writes"]
